@@ -59,7 +59,7 @@ def numbers():
 
 
 BLOCK_NAMES = ["div", "p", "ul", "li", "section", "h1", "table", "tr", "td", "form", "blockquote", "body", "head", "main", "select", "tbody", "datalist", "optgroup", "colgroup", "thead"]
-INLINE_NAMES = ["span", "a", "b", "i", "em", "strong", "code", "label", "small", "sub", "u", "q"]
+INLINE_NAMES = ["span", "a", "b", "i", "em", "strong", "code", "label", "small", "sub", "u", "q", "pre", "textarea"]
 _ALPHA = "abcdefghijklmnopqrstuvwxyzABCDEFGHIJKLMNOPQRSTUVWXYZ"
 # ordinary (custom) element names that merely contain / start with the names of the two raw-text elements
 RAWISH_NAMES = ["styled-text", "style-guide", "styles", "script-runner", "scripts", "x-style", "my-script", "noscript", "stylesheet"]
@@ -108,9 +108,12 @@ def norm_attr_name(x: str) -> str:
 LAYOUT_TEXT_ALPHA = "abcxyz019_.,:!\xe9"
 
 
+EXOTIC_BREAKS = "\r\x0b\x0c\x1c\x1d\x85\u2028\u2029"  # characters str.splitlines() / universal newlines treat as line ends
+
+
 def layout_leaf(newlines: bool = False, meta: bool = True, spaces: bool = False, blank=()):
     """blank: strings (e.g. "", " ", "\t") generated as *unnumbered* text / HTML leaves (empty and whitespace-only content)"""
-    alpha = LAYOUT_TEXT_ALPHA + ("\n" if newlines else "") + (" " if spaces else "")
+    alpha = LAYOUT_TEXT_ALPHA + ("\n" + EXOTIC_BREAKS if newlines else "") + (" " if spaces else "")
     txt = st.text(alphabet=alpha, max_size=5)
     leaves = []
     if blank:
@@ -221,6 +224,30 @@ def number(nodes, counter=None):
             i = counter[0]
             counter[0] += 1
             out.append(dict(n, s="r%d:" % i + n["s"], id=i))
+        else:
+            out.append(n)
+    return out
+
+
+def share_some(nodes, pick: int, counter=None):
+    """Deterministic transform (driven by the generated integer ``pick``): in some tags one child is repeated later in
+    the same child list *as the same object* (both occurrences carry the same "share" key; build(..., memo={}) reuses it)."""
+    if counter is None:
+        counter = [0]
+    out = []
+    for n in nodes:
+        if n["k"] == "tag":
+            kids = share_some(n["kids"], pick // 3 + 1, counter)
+            if kids and (pick + len(kids) + counter[0]) % 3 == 0:
+                j = (pick // 5) % len(kids)
+                if kids[j]["k"] in ("tag", "text", "html", "repr", "dep", "meta", "headc"):
+                    counter[0] += 1
+                    shared = dict(kids[j], share="s%d" % counter[0])
+                    kids = kids[:j] + [shared] + kids[j + 1 :]
+                    reps = 1 + (pick // 7) % 2
+                    at = len(kids) if (pick // 11) % 2 else min(len(kids), j + 2)
+                    kids = kids[:at] + [shared] * reps + kids[at:]
+            out.append(dict(n, kids=kids))
         else:
             out.append(n)
     return out
